@@ -12,7 +12,7 @@ enum Coll {
     Set(BTreeSet<String>),
 }
 
-const VALS: [&str; 10] = ["a", "b", "x y", "", "1", "é", "=", "handle:x", "true", "a,b"];
+const VALS: [&str; 14] = ["a", "b", "x y", "", "1", "é", "=", "handle:x", "true", "a,b", "007", "+5", "-0", "1e3"];
 
 pub fn gen(r: &mut Rng) -> Value {
     if r.chance(1, 6) {
@@ -51,7 +51,8 @@ pub fn gen(r: &mut Rng) -> Value {
             14 => json!({"op": "map_remove", "slot": h, "k": k}),
             15 => json!({"op": "map_size", "slot": h}),
             16 => json!({"op": "map_clear", "slot": h}),
-            17 | 18 => json!({"op": "set_put", "slot": h, "vals": [v]}),
+            17 => json!({"op": "set_put", "slot": h, "vals": [v]}),
+            18 => { let v2 = r.pick(&VALS).to_string(); let v3 = r.pick(&VALS).to_string(); json!({"op": "set_put", "slot": h, "vals": [v, v2, v3]}) }
             19 => json!({"op": "set_contains", "slot": h, "v": v}),
             20 => json!({"op": "set_remove", "slot": h, "v": v}),
             21 => json!({"op": "set_size", "slot": h}),
